@@ -47,9 +47,13 @@ def sh(cmd, cwd=None, timeout=1800):
     return p.returncode, p.stdout, p.stderr
 
 
-def build(log=None):
-    """Regenerate coq/Gen from /repo, then a full (incremental) .vo build.
-    Serialised by a file lock: checks may be started concurrently."""
+def build(targets=None, runtime=None):
+    """Regenerate coq/Gen from the implementation's working tree, then build (full .vo
+    compilation, never -vos): first the model files the correspondence evaluates (`runtime`),
+    then the property's theorem file and its obligations (`targets`); with targets=None the
+    whole development.  Serialised by a file lock: checks may be started concurrently.
+    A failure of the second step is reported through BuildError but leaves the runtime usable,
+    so the search for a failing input can still run."""
     os.makedirs(os.path.join(VERIF, "work"), exist_ok=True)
     lock = open(os.path.join(VERIF, "work", ".build.lock"), "w")
     fcntl.flock(lock, fcntl.LOCK_EX)
@@ -59,17 +63,21 @@ def build(log=None):
         rc, out, err = sh([PY, os.path.join(VERIF, "tools", "gen_tables.py")], cwd=VERIF, timeout=300)
         info["gen"] = {"rc": rc, "out": out[-2000:], "err": err[-2000:]}
         if rc != 0:
-            raise BuildError("translator failed (source shape not recognised):\n" + out[-1500:] + err[-1500:])
+            raise BuildError("translator crashed:\n" + out[-1500:] + err[-1500:])
         if not os.path.exists(os.path.join(COQ, "Makefile")):
             rc, out, err = sh(["coq_makefile", "-f", "_CoqProject", "-o", "Makefile"], cwd=COQ)
             if rc != 0:
                 raise BuildError("coq_makefile failed: " + err)
-        rc, out, err = sh(["timeout", "1500", "make", "-j16"], cwd=COQ, timeout=1600)
-        info["make_s"] = round(time.time() - t0, 1)
-        if rc != 0:
-            m = re.search(r'File "\./([^"]+)", line (\d+)', err)
-            info["failed_file"] = m.group(1) if m else None
-            raise BuildError("make failed:\n" + err[-3000:])
+        steps = [list(runtime)] if runtime else []
+        steps.append(list(targets) if targets else [])
+        for k, tg in enumerate(steps):
+            rc, out, err = sh(["timeout", "2400", "make", "-k", "-j16"] + tg, cwd=COQ, timeout=2500)
+            info["make_s"] = round(time.time() - t0, 1)
+            if rc != 0:
+                m = re.search(r'File "\./([^"]+)", line (\d+)', err)
+                info["failed_file"] = m.group(1) if m else None
+                info["runtime_ok"] = bool(runtime) and k > 0
+                raise BuildError("make %s failed:\n%s" % (" ".join(tg), err[-3000:]))
         return info
     except BuildError as e:
         e.info = info
